@@ -27,16 +27,38 @@ pub struct Case {
     /// call order of the fit setters and the common options: 0 options, width, height; 1 options, height, width;
     /// 2 width, height, options; 3 height, width, options (the result must not depend on it)
     pub fit_order: u8,
+    /// fit requests made on the same ImageBuilder BEFORE the final one, each optionally followed by a render: the
+    /// setters are last-value-wins per dimension (a width stays set until fit_width is called again), and a render in
+    /// between must not influence later renders
+    pub pre_fits: Vec<(Fit, bool)>,
 }
 
-pub fn to_json(c: &Case) -> Value {
-    let fit = match c.fit {
+fn fit_json(f: Fit) -> Value {
+    match f {
         Fit::Original => json!("original"),
         Fit::Width(w) => json!({"width": w}),
         Fit::Height(h) => json!({"height": h}),
         Fit::Both(w, h) => json!({"width": w, "height": h}),
-    };
-    json!({"build": c.build.to_json(), "svg": c.cfg.to_json(), "fit": fit, "fit_order": c.fit_order})
+    }
+}
+
+fn fit_from(f: &Value) -> Fit {
+    if f.is_string() {
+        Fit::Original
+    } else {
+        match (f.get("width").and_then(|x| x.as_u64()), f.get("height").and_then(|x| x.as_u64())) {
+            (Some(w), Some(h)) => Fit::Both(w as u32, h as u32),
+            (Some(w), None) => Fit::Width(w as u32),
+            (None, Some(h)) => Fit::Height(h as u32),
+            _ => Fit::Original,
+        }
+    }
+}
+
+pub fn to_json(c: &Case) -> Value {
+    let fit = fit_json(c.fit);
+    json!({"build": c.build.to_json(), "svg": c.cfg.to_json(), "fit": fit, "fit_order": c.fit_order,
+           "pre_fits": c.pre_fits.iter().map(|(f, r)| json!({"fit": fit_json(*f), "render": r})).collect::<Vec<_>>()})
 }
 
 pub fn from_json(v: &Value) -> Option<Case> {
@@ -51,11 +73,33 @@ pub fn from_json(v: &Value) -> Option<Case> {
             _ => Fit::Original,
         }
     };
-    Some(Case { build: BuildCase::from_json(v.get("build")?)?, cfg: SvgCfg::from_json(v.get("svg")?)?, fit, fit_order: v.get("fit_order").and_then(|x| x.as_u64()).unwrap_or(0) as u8 })
+    Some(Case { build: BuildCase::from_json(v.get("build")?)?, cfg: SvgCfg::from_json(v.get("svg")?)?, fit, fit_order: v.get("fit_order").and_then(|x| x.as_u64()).unwrap_or(0) as u8,
+        pre_fits: v.get("pre_fits").and_then(|x| x.as_array()).map(|a| a.iter().map(|p| (fit_from(&p["fit"]), p["render"].as_bool().unwrap_or(false))).collect()).unwrap_or_default() })
 }
 
 pub fn image_builder(c: &SvgCfg, fit: Fit) -> ImageBuilder {
     image_builder_ordered(c, fit, 0)
+}
+
+fn set_fit(ib: &mut ImageBuilder, fit: Fit, order: u8) {
+    match fit {
+        Fit::Original => {}
+        Fit::Width(w) => {
+            ib.fit_width(w);
+        }
+        Fit::Height(h) => {
+            ib.fit_height(h);
+        }
+        Fit::Both(w, h) => {
+            if order % 2 == 0 {
+                ib.fit_width(w);
+                ib.fit_height(h);
+            } else {
+                ib.fit_height(h);
+                ib.fit_width(w);
+            }
+        }
+    }
 }
 
 pub fn image_builder_ordered(c: &SvgCfg, fit: Fit, fit_order: u8) -> ImageBuilder {
@@ -103,13 +147,40 @@ pub fn check(c: &Case, obs: &mut Obs) -> Result<(), Fail> {
     let vals = built.values();
     let margin = c.cfg.margin_eff();
     let s = n + 2 * margin;
-    let want_side = match c.fit {
-        Fit::Original => s as u32,
-        Fit::Width(w) => w,
-        Fit::Height(h) => h,
-        Fit::Both(w, h) => w.min(h),
+    // last value wins per dimension over the whole setter history
+    let (mut w_set, mut h_set): (Option<u32>, Option<u32>) = (None, None);
+    for f in c.pre_fits.iter().map(|p| p.0).chain([c.fit]) {
+        match f {
+            Fit::Original => {}
+            Fit::Width(w) => w_set = Some(w),
+            Fit::Height(h) => h_set = Some(h),
+            Fit::Both(w, h) => {
+                w_set = Some(w);
+                h_set = Some(h);
+            }
+        }
+    }
+    let want_side = match (w_set, h_set) {
+        (None, None) => s as u32,
+        (Some(w), None) => w,
+        (None, Some(h)) => h,
+        (Some(w), Some(h)) => w.min(h),
     };
-    let mut ib = image_builder_ordered(&c.cfg, c.fit, c.fit_order);
+    let mut ib = if c.pre_fits.is_empty() {
+        image_builder_ordered(&c.cfg, c.fit, c.fit_order)
+    } else {
+        // options first, then the history of fit requests (with renders in between), then the final request
+        let mut ib = image_builder_ordered(&c.cfg, Fit::Original, 0);
+        for (f, render) in &c.pre_fits {
+            set_fit(&mut ib, *f, c.fit_order);
+            if *render {
+                let _ = catch(|| ib.to_pixmap(&built.qr).width());
+            }
+        }
+        set_fit(&mut ib, c.fit, c.fit_order);
+        obs.label("fit_history");
+        ib
+    };
     if c.cfg.warm.is_some() {
         catch(|| c.cfg.warm_up_image_builder(&mut ib, &built.qr)).map_err(|p| Fail { sig: panic_sig(&p), msg: format!("warm-up render panicked: {}", p) })?;
         obs.label("renderer_instance_reused");
@@ -283,8 +354,10 @@ pub fn case_strategy(versions: &'static [usize]) -> BoxedStrategy<Case> {
         .prop_flat_map(|(v, li, margin, shape, (mc, bg), mask, warm)| {
             let cell = Cell { version: v, level: Level::from_index(li), mode: Mode::Byte };
             let s = size(v) + 2 * margin.unwrap_or(4);
-            (case_in_cell(cell, Force { mode: false, level: true, version: true }, mask), fit_strategy(s), 0u8..4).prop_map(move |((build, _), fit, fit_order)| Case {
+            let pre = prop_oneof![3 => Just(Vec::new()), 2 => proptest::collection::vec((fit_strategy(s), any::<bool>()), 1..3)];
+            (case_in_cell(cell, Force { mode: false, level: true, version: true }, mask), fit_strategy(s), 0u8..4, pre).prop_map(move |((build, _), fit, fit_order, pre_fits)| Case {
                 fit_order,
+                pre_fits,
                 build,
                 cfg: SvgCfg { margin, layers: shape.map(|s| vec![(s, None)]).unwrap_or_default(), module_color: mc.clone(), background: bg.clone(), warm, ..SvgCfg::default() },
                 fit,
@@ -328,6 +401,7 @@ pub fn run(e: &'static Engine) {
                         let cell = Cell { version: v, level: Level::from_index((v + shape) % 4), mode: Mode::Byte };
                         let strat = case_in_cell(cell, Force { mode: false, level: true, version: true }, None).prop_map(move |(build, _)| Case {
                             fit_order: 0,
+                            pre_fits: Vec::new(),
                             build,
                             cfg: SvgCfg { margin: Some(m), layers: vec![(shape, None)], ..SvgCfg::default() },
                             fit,
